@@ -48,6 +48,10 @@ ZOPE_PROJECTS = [
      "zp/alpha.py": "from zope.interface import implementer\nfrom zp._iface import IPlugin, IOther\n@implementer(IPlugin)\nclass One:\n    def run(self): pass\n"
                     "@implementer(IOther, IPlugin)\nclass Both:\n    def run(self): pass\n",
      "zp/beta.py": "from zope.interface import implementer\nimport zp._iface\n@implementer(zp._iface.IPlugin)\nclass Three(object):\n    pass\n"},
+    # hierarchies Python rejects (no consistent order): the order pydoctor falls back to still names each class once
+    {"zp/__init__.py": "", "zp/h.py": "class A: pass\nclass B(A): pass\nclass C(A, B): pass\nclass D(C): pass\n"
+                                      "class X(A, B): pass\nclass Y(B, A): pass\nclass Z(X, Y): pass\nclass W(Z, A): pass\n",
+     "zp/g.py": "from zp.h import A, B\nfrom zp import h\nclass E(A, h.B): pass\nclass F(E, B, A): pass\n"},
     {"zp/__init__.py": "", "zp/m.py": "from zope.interface import Interface, implements, classImplements, moduleProvides\nclass IM(Interface):\n    pass\nmoduleProvides(IM)\nclass C:\n    implements(IM)\nclass D:\n    pass\nclassImplements(D, IM)\n"},
 ]
 
